@@ -1,9 +1,20 @@
 #!/bin/bash
 # tools/seed_check.sh <patch.diff> <property-id> [tier]: apply a seeded change to /repo, run the check, undo.
+# With SEED_SCRATCH=1 the change is applied to a scratch worktree (/tmp/mutrepo at /repo's HEAD) instead and the check
+# is pointed at it (VERIF_REPO); used while a long run is reading /repo. No evidence is written in that mode.
 set -u
 patch=$1; pid=$2; tier=${3:-quick}
+if [ "${SEED_SCRATCH:-0}" = "1" ]; then
+  wt=/tmp/mutrepo
+  head=$(git -C /repo rev-parse HEAD)
+  if [ -d $wt ]; then git -C $wt checkout -q --detach $head; git -C $wt checkout -q -- .; else git -C /repo worktree add -q --detach $wt $head || exit 3; fi
+  git -C $wt apply "$patch" || { echo "patch does not apply"; exit 3; }
+  ( cd /verif && VERIF_REPO=$wt ./check "$pid" "$tier" > /tmp/seedchk_$pid.log 2>&1; echo "rc=$?"; grep -E "^VIOLATION|^KNOWN" /tmp/seedchk_$pid.log | cut -c1-260 | head -5 )
+  git -C $wt checkout -q -- .
+  exit 0
+fi
 cd /repo || exit 3
 if ! git diff --quiet; then echo "/repo is dirty"; exit 3; fi
 git apply "$patch" || { echo "patch does not apply"; exit 3; }
-( cd /verif && ./check "$pid" "$tier" > /tmp/seedchk_$pid.log 2>&1; echo "rc=$?"; grep -E "^VIOLATION|^KNOWN" /tmp/seedchk_$pid.log | cut -c1-260 | head -5 )
+( cd /verif && VERIF_NO_EVIDENCE=1 ./check "$pid" "$tier" > /tmp/seedchk_$pid.log 2>&1; echo "rc=$?"; grep -E "^VIOLATION|^KNOWN" /tmp/seedchk_$pid.log | cut -c1-260 | head -5 )
 git -C /repo checkout -- .
